@@ -395,3 +395,228 @@ Proof.
   split; [| split; [reflexivity | split; [reflexivity | apply perm_swap]]].
   apply Permutation_sym. apply (Permutation_cons_app [_; _] []). simpl. apply Permutation_refl.
 Qed.
+
+(* ==================================================================================================
+   Session 5: determining_set_solves, on the executable numeric model of one frequency of the non-iterative
+   solve (Cal/SolveSimple.assemble as coded; CalQI.q_solve_system: the LU model of _vnacommon_mldivide for a
+   square system, the normal-equation least-squares model for a tall one; q_error_terms: unity terms, leakage
+   terms, E12 conversion), over the Gaussian rationals.  "Full column rank" of the assembled coefficient matrix
+   is SolveRecovers.kernel_trivial (A v = 0 only for v = 0; a left inverse implies it:
+   LuNonsing.left_inverse_kernel_trivial); "rank deficient" is DeterminingProofs.rows_deficient (an explicit
+   non-zero v with A v = 0).  Every theorem: EVERY type, all dimensions, every list of measured standards,
+   every value of the parameters; no bound.
+   Outside these theorems: rounding (binary64 rank decisions are best effort, as the property says), the
+   Householder QR code as coded (C19 has its model and rank theorem, premised on computed sqrt laws; the tall
+   branch here is the normal-equation model that C19 compares with _vnacommon_qrsolve), unknown parameters
+   (auto / TRL paths), measurement-error weighting. *)
+Require Import ZArith.
+Require Import LV.Base.QcI LV.Gen.LayoutGen LV.Cal.AddModel LV.Cal.SolveSimple LV.Cal.CalQI LV.Cal.SolveRecovers.
+Require Import LV.SolveCount.DeterminingGj LV.SolveCount.DeterminingProofs LV.SolveCount.DeterminingCount
+               LV.SolveCount.DeterminingExamples.
+
+(* 6a. The verdict of a system is decided by the count and the rank alone: fewer assembled equations than
+       unknowns -> insufficient; otherwise solved exactly when the coefficient matrix has full column rank
+       and singular exactly when it is rank deficient (and one of the two always holds). *)
+Theorem system_verdict_by_count_and_rank ty mr mc (ms : list (mvals qops)) (pval : Z -> qi) (sys : nat) :
+  let rows := q_assemble ty mr mc ms pval sys in
+  let n := SolveSimple.unknowns ty mr mc in
+  (length rows < n /\ q_solve_system ty mr mc ms pval sys = SysInsufficient rows) \/
+  (n <= length rows /\ kernel_trivial n rows /\ exists x, q_solve_system ty mr mc ms pval sys = SysOk rows x) \/
+  (n <= length rows /\ rows_deficient n rows /\ q_solve_system ty mr mc ms pval sys = SysSingular rows).
+Proof. exact (system_verdict ty mr mc ms pval sys). Qed.
+Print Assumptions system_verdict_by_count_and_rank.
+
+(* 6b. Full column rank and enough equations => the model solve of the system succeeds ... *)
+Theorem determining_system_solves ty mr mc (ms : list (mvals qops)) (pval : Z -> qi) (sys : nat) :
+  let rows := q_assemble ty mr mc ms pval sys in
+  let n := SolveSimple.unknowns ty mr mc in
+  n <= length rows -> kernel_trivial n rows -> exists x, q_solve_system ty mr mc ms pval sys = SysOk rows x.
+Proof. exact (DeterminingProofs.determining_system_solves ty mr mc ms pval sys). Qed.
+Print Assumptions determining_system_solves.
+
+(* ... and conversely success means full column rank (so the solution is the unique one) *)
+Theorem system_solved_iff_determining ty mr mc (ms : list (mvals qops)) (pval : Z -> qi) (sys : nat) :
+  let rows := q_assemble ty mr mc ms pval sys in
+  let n := SolveSimple.unknowns ty mr mc in
+  (exists x, q_solve_system ty mr mc ms pval sys = SysOk rows x) <-> (n <= length rows /\ kernel_trivial n rows).
+Proof. exact (system_ok_iff ty mr mc ms pval sys). Qed.
+Print Assumptions system_solved_iff_determining.
+
+(* 6c. Rank deficient with enough equations => the singular outcome (the branch that reports EDOM); and the
+       singular outcome is never a false alarm in exact arithmetic. *)
+Theorem rank_deficient_system_singular ty mr mc (ms : list (mvals qops)) (pval : Z -> qi) (sys : nat) :
+  let rows := q_assemble ty mr mc ms pval sys in
+  let n := SolveSimple.unknowns ty mr mc in
+  n <= length rows -> rows_deficient n rows -> q_solve_system ty mr mc ms pval sys = SysSingular rows.
+Proof. exact (deficient_system_singular ty mr mc ms pval sys). Qed.
+Print Assumptions rank_deficient_system_singular.
+
+Theorem singular_outcome_means_rank_deficient ty mr mc (ms : list (mvals qops)) (pval : Z -> qi) (sys : nat) :
+  let rows := q_assemble ty mr mc ms pval sys in
+  let n := SolveSimple.unknowns ty mr mc in
+  q_solve_system ty mr mc ms pval sys = SysSingular rows -> n <= length rows /\ rows_deficient n rows.
+Proof. exact (singular_system_deficient ty mr mc ms pval sys). Qed.
+Print Assumptions singular_outcome_means_rank_deficient.
+
+(* 6d. determining_set_solves: every system has enough equations, full column rank, and the measurements come
+       from error terms xs_true (they satisfy every assembled equation) => the model solve succeeds and returns
+       exactly those terms (unity terms inserted, leakage terms appended, E12 conversion applied). *)
+Theorem determining_set_solves ty mr mc (ms : list (mvals qops)) (pval : Z -> qi) (xs_true : list (list qi)) :
+  let n := SolveSimple.unknowns ty mr mc in
+  let nsys := systems_of ty mc in
+  length xs_true = nsys ->
+  (forall sys, sys < nsys ->
+     let xt := nth sys xs_true [] in
+     let rows := q_assemble ty mr mc ms pval sys in
+     length xt = n /\ (forall r, In r rows -> rdot n (fst r) xt = snd r) /\
+     n <= length rows /\ kernel_trivial n rows) ->
+  q_error_terms ty mr mc ms pval =
+  Some (if caltype_eqb ty E12_UE14 then convert_ue14_to_e12 qops mr mc (e_vector qops ty mr mc ms xs_true)
+        else e_vector qops ty mr mc ms xs_true).
+Proof. exact (determining_set_recovers ty mr mc ms pval xs_true). Qed.
+Print Assumptions determining_set_solves.
+
+(* non-vacuity: one-port T8, reflects -1, 1, 1/2 (square, LU) and a fourth reflect i/3 (tall, least squares)
+   measured through Ts = 2, Ti = 1/2, Tx = 1/4, Tm = 1: every hypothesis holds, the result is the true terms *)
+Example determining_set_solves_square_satisfiable :
+  length (q_assemble LayoutGen.T8 1 1 (ms_of [3; 4; 5]%Z) EndToEnd.ex_pval4 0) = 3 /\
+  length EndToEnd.ex_xs = systems_of LayoutGen.T8 1 /\
+  (forall sys, sys < systems_of LayoutGen.T8 1 ->
+     let xt := nth sys EndToEnd.ex_xs [] in
+     let rows := q_assemble LayoutGen.T8 1 1 (ms_of [3; 4; 5]%Z) EndToEnd.ex_pval4 sys in
+     length xt = SolveSimple.unknowns LayoutGen.T8 1 1 /\
+     (forall r, In r rows -> rdot (SolveSimple.unknowns LayoutGen.T8 1 1) (fst r) xt = snd r) /\
+     SolveSimple.unknowns LayoutGen.T8 1 1 <= length rows /\ kernel_trivial (SolveSimple.unknowns LayoutGen.T8 1 1) rows) /\
+  q_error_terms LayoutGen.T8 1 1 (ms_of [3; 4; 5]%Z) EndToEnd.ex_pval4 =
+  Some [EndToEnd.ex_ts; EndToEnd.ex_ti; EndToEnd.ex_tx; qi1].
+Proof. exact determining_square_example. Qed.
+
+Example determining_set_solves_tall_satisfiable :
+  length (q_assemble LayoutGen.T8 1 1 (ms_of [3; 4; 5; 6]%Z) EndToEnd.ex_pval4 0) = 4 /\
+  length EndToEnd.ex_xs = systems_of LayoutGen.T8 1 /\
+  (forall sys, sys < systems_of LayoutGen.T8 1 ->
+     let xt := nth sys EndToEnd.ex_xs [] in
+     let rows := q_assemble LayoutGen.T8 1 1 (ms_of [3; 4; 5; 6]%Z) EndToEnd.ex_pval4 sys in
+     length xt = SolveSimple.unknowns LayoutGen.T8 1 1 /\
+     (forall r, In r rows -> rdot (SolveSimple.unknowns LayoutGen.T8 1 1) (fst r) xt = snd r) /\
+     SolveSimple.unknowns LayoutGen.T8 1 1 <= length rows /\ kernel_trivial (SolveSimple.unknowns LayoutGen.T8 1 1) rows) /\
+  q_error_terms LayoutGen.T8 1 1 (ms_of [3; 4; 5; 6]%Z) EndToEnd.ex_pval4 =
+  Some [EndToEnd.ex_ts; EndToEnd.ex_ti; EndToEnd.ex_tx; qi1].
+Proof. exact determining_tall_example. Qed.
+
+(* 6e. Conversely: some system has too few equations, or enough but is rank deficient => no error terms. *)
+Theorem undetermined_set_not_solved ty mr mc (ms : list (mvals qops)) (pval : Z -> qi) (sys : nat) :
+  let n := SolveSimple.unknowns ty mr mc in
+  let rows := q_assemble ty mr mc ms pval sys in
+  sys < systems_of ty mc ->
+  (length rows < n \/ (n <= length rows /\ rows_deficient n rows)) ->
+  q_error_terms ty mr mc ms pval = None.
+Proof. exact (undetermined_set_fails ty mr mc ms pval sys). Qed.
+Print Assumptions undetermined_set_not_solved.
+
+Theorem model_solve_succeeds_iff_all_systems_determining ty mr mc (ms : list (mvals qops)) (pval : Z -> qi) :
+  (exists e, q_error_terms ty mr mc ms pval = Some e) <->
+  (forall sys, sys < systems_of ty mc ->
+     SolveSimple.unknowns ty mr mc <= length (q_assemble ty mr mc ms pval sys) /\
+     kernel_trivial (SolveSimple.unknowns ty mr mc) (q_assemble ty mr mc ms pval sys)).
+Proof. exact (error_terms_some_iff ty mr mc ms pval). Qed.
+Print Assumptions model_solve_succeeds_iff_all_systems_determining.
+
+(* non-vacuity: the short entered twice beside the open (square), three times (tall): enough equations, an
+   explicit kernel vector, SysSingular, no error terms; two standards: too few *)
+Example rank_deficient_square_satisfiable :
+  let rows := q_assemble LayoutGen.T8 1 1 (ms_of [3; 3; 4]%Z) EndToEnd.ex_pval4 0 in
+  length rows = 3 /\ SolveSimple.unknowns LayoutGen.T8 1 1 <= length rows /\
+  rows_deficient (SolveSimple.unknowns LayoutGen.T8 1 1) rows /\
+  q_solve_system LayoutGen.T8 1 1 (ms_of [3; 3; 4]%Z) EndToEnd.ex_pval4 0 = SysSingular rows /\
+  q_error_terms LayoutGen.T8 1 1 (ms_of [3; 3; 4]%Z) EndToEnd.ex_pval4 = None.
+Proof. exact deficient_square_example. Qed.
+
+Example rank_deficient_tall_satisfiable :
+  let rows := q_assemble LayoutGen.T8 1 1 (ms_of [3; 3; 4; 3]%Z) EndToEnd.ex_pval4 0 in
+  length rows = 4 /\ SolveSimple.unknowns LayoutGen.T8 1 1 <= length rows /\
+  rows_deficient (SolveSimple.unknowns LayoutGen.T8 1 1) rows /\
+  q_solve_system LayoutGen.T8 1 1 (ms_of [3; 3; 4; 3]%Z) EndToEnd.ex_pval4 0 = SysSingular rows /\
+  q_error_terms LayoutGen.T8 1 1 (ms_of [3; 3; 4; 3]%Z) EndToEnd.ex_pval4 = None.
+Proof. exact deficient_tall_example. Qed.
+
+Example too_few_equations_satisfiable :
+  length (q_assemble LayoutGen.T8 1 1 (ms_of [3; 4]%Z) EndToEnd.ex_pval4 0) < SolveSimple.unknowns LayoutGen.T8 1 1 /\
+  q_error_terms LayoutGen.T8 1 1 (ms_of [3; 4]%Z) EndToEnd.ex_pval4 = None.
+Proof. exact insufficient_example. Qed.
+
+(* 6f. The least-squares model of the tall branch (Gauss-Jordan on the normal equations + a posteriori check)
+       answers exactly on full column rank, every m, n, o (completes C19's c19_ls_gj_oracle_sound_by_construction,
+       which had the soundness direction only). *)
+Theorem ls_model_answers_iff_full_rank m n o (a b : MatL.mat QIF) :
+  (exists x, LuQI2.q2_ls_solve m n o a b = Some x) <-> LsLuProofs.full_col_rank m n a.
+Proof. exact (ls_solve_answers_iff_full_rank m n o a b). Qed.
+Print Assumptions ls_model_answers_iff_full_rank.
+
+(* 7. The count model joined with the numeric model.  o = any oracle that agrees with the numeric model on the
+      system sites of this state (oracle_is_model; DeterminingCount.model_oracle is one), counts_agree = the
+      two models count the same equations per system (both are compared with vns_equation_count of the
+      library on every run; no theorem links Cal.AddModel.add_common with CountModel.add_std).  Known
+      standards (simple path), any number of frequencies:
+        count test passes AND every system has full column rank at every frequency AND the post-processing
+        site answers (E12 conversion: the leading reflection-tracking terms are non-zero)  =>  vnacal_new_solve
+        succeeds: (solved st, Ok);
+        some system at some frequency has enough equations but is rank deficient  =>  EDOM, state unchanged. *)
+Theorem count_test_and_full_rank_solve (o : CM.oracle) (st : CM.state)
+        (vals : nat -> list (mvals qops)) (pvalf : nat -> Z -> qi) :
+  let cf := CM.st_cf st in
+  let ty := cty (CM.cf_ty cf) in
+  let ns := CM.systems (CM.cf_ty cf) (CM.cf_c cf) in
+  CM.st_fvalid st = true -> CM.solve_path st = CM.PSimple ->
+  oracle_is_model o st vals pvalf -> counts_agree st vals pvalf ->
+  CM.count_deficient st = false ->
+  (forall f k, f < CM.st_freqs st -> k < ns ->
+     kernel_trivial (SolveSimple.unknowns ty (CM.cf_r cf) (CM.cf_c cf))
+                    (q_assemble ty (CM.cf_r cf) (CM.cf_c cf) (vals f) (pvalf f) k)) ->
+  (forall f, f < CM.st_freqs st -> o (CM.view_of st) f ns = true) ->
+  CM.solve o CM.NoFault st = (CP.solved st, CM.Ok).
+Proof. exact (count_and_rank_solve_lemma o st vals pvalf). Qed.
+Print Assumptions count_test_and_full_rank_solve.
+
+Theorem rank_deficient_edom (o : CM.oracle) (st : CM.state)
+        (vals : nat -> list (mvals qops)) (pvalf : nat -> Z -> qi) (f k : nat) :
+  let cf := CM.st_cf st in
+  let ty := cty (CM.cf_ty cf) in
+  let n := SolveSimple.unknowns ty (CM.cf_r cf) (CM.cf_c cf) in
+  let rows := q_assemble ty (CM.cf_r cf) (CM.cf_c cf) (vals f) (pvalf f) k in
+  CM.st_fvalid st = true -> CM.solve_path st = CM.PSimple ->
+  oracle_is_model o st vals pvalf ->
+  f < CM.st_freqs st -> k < CM.systems (CM.cf_ty cf) (CM.cf_c cf) ->
+  n <= length rows -> rows_deficient n rows ->
+  CM.solve o CM.NoFault st = (st, CM.Err CM.EDOM).
+Proof. exact (fun Hfv Hp Ho => rank_deficient_edom_lemma o st vals pvalf Hfv Hp Ho f k). Qed.
+Print Assumptions rank_deficient_edom.
+
+(* the two models use the same number of unknowns and systems (every type, all dimensions) *)
+Theorem count_model_layout_agrees (ty : CM.ctype) (r c : nat) :
+  CM.unknowns ty r c = SolveSimple.unknowns (cty ty) r c /\ CM.systems ty c = systems_of (cty ty) c.
+Proof. exact (conj (unknowns_agree ty r c) (systems_agree ty c)). Qed.
+Print Assumptions count_model_layout_agrees.
+
+Example count_test_and_full_rank_solve_satisfiable :
+  let st := cm_state [2; 3; 4; 5] in
+  let vals := fun _ : nat => ms_of [3; 4; 5; 6]%Z in
+  let pvalf := fun _ : nat => EndToEnd.ex_pval4 in
+  let o := model_oracle vals pvalf in
+  CM.st_fvalid st = true /\ CM.solve_path st = CM.PSimple /\ oracle_is_model o st vals pvalf /\
+  counts_agree st vals pvalf /\ CM.count_deficient st = false /\
+  (forall f k, f < CM.st_freqs st -> k < CM.systems CM.T8 1 ->
+     kernel_trivial (SolveSimple.unknowns LayoutGen.T8 1 1) (q_assemble LayoutGen.T8 1 1 (vals f) (pvalf f) k)) /\
+  (forall f, f < CM.st_freqs st -> o (CM.view_of st) f (CM.systems CM.T8 1) = true) /\
+  CM.solve o CM.NoFault st = (CP.solved st, CM.Ok).
+Proof. exact count_and_rank_example. Qed.
+
+Example rank_deficient_edom_satisfiable :
+  let st := cm_state [2; 2; 3; 2] in
+  let vals := fun _ : nat => ms_of [3; 3; 4; 3]%Z in
+  let pvalf := fun _ : nat => EndToEnd.ex_pval4 in
+  let o := model_oracle vals pvalf in
+  CM.count_deficient st = false /\ counts_agree st vals pvalf /\
+  rows_deficient (SolveSimple.unknowns LayoutGen.T8 1 1) (q_assemble LayoutGen.T8 1 1 (vals 0) (pvalf 0) 0) /\
+  CM.solve o CM.NoFault st = (st, CM.Err CM.EDOM).
+Proof. exact rank_deficient_edom_example. Qed.
